@@ -1,5 +1,9 @@
 import Afkak.Monitor.C16
 import AfkakProofs.Group.Fence
+import AfkakProofs.Group.FencedTrace
+import AfkakProofs.Group.DrainStep
+import AfkakProofs.Group.OneJoin
+import AfkakProofs.Group.HbStable
 import AfkakProps.Open.C16
 /-!
 # C16 — generation fencing: no partition consumer outlives its group generation
@@ -87,6 +91,29 @@ theorem C16_eviction_table (stopping : Bool) (e : GErr) (h : isEviction e = true
     (rejoinRow stopping e).leave = true ∧ (rejoinRow stopping e).act ≠ .ignore ∧ (rejoinRow stopping e).act ≠ .fatal :=
   Afkak.Group.Tables.eviction_leave stopping e h
 
+/-- The fencing MONITOR on every model trace: in every snapshot a running consumer carries the
+    member's current generation and member id and its partition is in the assignment of the last
+    processed successful sync reply (tracked by the monitor from the observed replies alone). -/
+theorem C16_fenced_trace (cfg : Cfg) (evs : List Ev) : fenced (toMSteps (run cfg evs)) = true :=
+  fenced_run cfg evs
+
+/-- Full strength: a JoinGroup request is observed only when NO consumer is running or draining —
+    also while `stop()` drains (since fix 05f4891 `on_join_prepare` parks while `_stop_draining`),
+    also when a consumer's `shutdown()` raises or fails (the rest of the batch is stopped). -/
+theorem C16_join_after_drain (cfg : Cfg) (evs : List Ev) : joinAfterDrain (toMSteps (run cfg evs)) = true :=
+  joinAfterDrain_run cfg evs
+
+/-- At most one join/sync request outstanding, as counted on the observed trace from requests,
+    processed replies and observed cancellations (monitor `oneJoin`). -/
+theorem C16_one_join (cfg : Cfg) (evs : List Ev) : oneJoin (toMSteps (run cfg evs)) = true :=
+  oneJoin_run cfg evs
+
+/-- Heartbeats are observed only while a stable member, as judged from the trace alone: after a
+    processed successful sync reply with, since then, no processed heartbeat failure, no rejoin
+    timer set, no coordinator look-up / join / leave issued and the member not stopping. -/
+theorem C16_heartbeat_only_stable (cfg : Cfg) (evs : List Ev) : heartbeatOnlyStable (toMSteps (run cfg evs)) = true :=
+  heartbeatOnlyStable_run cfg evs
+
 def exCfg : Cfg := { initialBackoffMs := 1000, retryBackoffMs := 125, fatalBackoffMs := 10000, heartbeatMs := 5000 }
 
 /-! Non-vacuity: a reachable state with running consumers of generation 5, one with a join in
@@ -114,10 +141,10 @@ C16_after_stop_only_leave
 C16_stopping_quiesced
 C16_one_join_coroutine
 C16_eviction_table
--/
-/- OPEN_STATEMENTS
+C16_fenced_trace
 C16_join_after_drain
 C16_one_join
 C16_heartbeat_only_stable
-C16_fenced_trace
+-/
+/- OPEN_STATEMENTS
 -/
